@@ -46,7 +46,10 @@ RULE = (
     "trailing-slash workspace root for build(dir) - other root spellings make the pinned code derive "
     "wrong tree/index KEYS, which is a listing matter, not judged here; spelled_history mixes single and batched routes and "
     "spellings for one file); the reference reads the bytes through that very spelling. "
-    "Queries: State.get, State.get_many over batches of size "
+    "checkout_history: an index with a local cache ObjectStorage whose workspace is populated by index "
+    "checkout with link type from {symlink, hardlink, copy}, then writes through the links / link "
+    "replaced by a file / retargeted, each followed by md5(index) and update(), judging only the "
+    "workspace path's hash. Queries: State.get, State.get_many over batches of size "
     "{0,1,2,3..8,998,999,1000,1001,2500} (live files at drawn positions among padding files that "
     "are saved once per history: most valid, some unsaved / other algorithm / newer version / "
     "deleted), hash_file(state=), build() of a file or the directory on a store carrying the state, "
@@ -75,7 +78,8 @@ RULE = (
     "non-local filesystems are misses. Non-trivial = a query answered from the cache for a path "
     "mutated earlier in the history, or a batch >= 1000, or an update() after a mutation, or a "
     "mutation that fired during a batch call, or >= 2 files with distinct contents hashed in the "
-    "pool, or a recorded batch with a vanished item; distinct "
+    "pool, or a recorded batch with a vanished item, or a mutation of a checked-out workspace; "
+    "distinct "
     "= SHA-1 of the trace JSON."
 )
 ASSUMPTIONS = [
@@ -1341,6 +1345,101 @@ class C13Machine(TraceMachine):
         self.labels.add("mut:link_retarget:" + ("relative" if relative else "absolute"))
         self.probe(lp, probe, algo)
 
+    # ---- a workspace populated by a real checkout from a cache attached to the index --------------
+    CO_FILES = {"foo": b"foo: original contents\n", "bar": b"bar\r\ncontents\r\n", "baz": b"BAZ!"}
+
+    @rule(link=st.sampled_from(["symlink", "symlink", "hardlink", "copy"]), algo=st.sampled_from([0, 0, 1]),
+          muts=st.lists(st.tuples(st.integers(0, 2),
+                                  st.sampled_from(["write", "write", "write", "replace", "retarget",
+                                                   "touch"]),
+                                  content_s, clock_s).map(list), min_size=1, max_size=3),
+          use_state=st.sampled_from([True, True, False]))
+    @traced
+    def checkout_history(self, link, algo, muts, use_state):
+        """An index with a local cache (ObjectStorage) and data storage whose workspace was populated
+        by index checkout with a drawn link type; then in-place writes THROUGH the links, links
+        replaced by regular files, retargeted links, each followed by md5(index) and update(). Only
+        the workspace path's hash is judged (a write through a link also changes the cache object)."""
+        from dvc_data.hashfile.hash_info import HashInfo
+        from dvc_data.hashfile.meta import Meta
+        from dvc_data.index.build import build as ibuild
+        from dvc_data.index.checkout import apply, compare
+        from dvc_data.index.index import DataIndex, DataIndexEntry, FileStorage, ObjectStorage
+        from dvc_data.index.save import md5 as imd5
+        from dvc_data.index.update import update
+
+        name = ALGOS[algo]
+        state = self.state if use_state else None
+        self.nco = getattr(self, "nco", 0) + 1
+        top = os.path.join(self.dir, f"co{self.nco}")
+        src, ws = os.path.join(top, "src"), os.path.join(top, "ws")
+        os.makedirs(src)
+        os.makedirs(ws)
+        odb = ops.make_odb("local", os.path.join(top, "cache"), state=self.state, hash_name=name,
+                           type=[link])
+        index = DataIndex()
+        index.storage_map.add_cache(ObjectStorage((), odb))
+        names = sorted(self.CO_FILES)
+        for nm in names:
+            data = self.CO_FILES[nm]
+            gen.write_file(os.path.join(src, nm), data)
+            oid = ref.ref_hash(data, name)
+            odb.add(os.path.join(src, nm), self.fs, oid)
+            index[(nm,)] = DataIndexEntry(key=(nm,), meta=Meta(size=len(data), md5=oid),
+                                          hash_info=HashInfo(name, oid))
+        apply(compare(None, index), ws, self.fs, update_meta=False, links=[link])
+        index.storage_map.add_data(FileStorage((), self.fs, ws))
+        for i, nm in enumerate(names):
+            q = os.path.join(ws, nm)
+            if not os.path.isfile(q):
+                raise HarnessError(f"checkout did not create {q}")
+            os.chmod(os.path.realpath(q), 0o644)     # the user makes the file writable
+            self.clock(q, ["d", 0], T0_NS + (30 + i) * 1_000_000_000 + 500_000_000)
+        self.labels.add(f"checkout:{link}:{name}")
+
+        def judge(route, idx):
+            n = 0
+            for key, e in idx.iteritems():
+                if e.meta is not None and e.meta.isdir:
+                    continue
+                if e.hash_info:
+                    n += 1
+                    self.check(route, os.path.join(ws, *key), e.hash_info)
+            return n
+
+        self.cnt["queries"] += 1
+        kept = imd5(index, state=state, name=name)
+        judge("index.md5(checkout)", kept)
+        for fi, how, content, clock in muts:
+            q = os.path.join(ws, names[fi % len(names)])
+            if how == "retarget" and os.path.islink(q):
+                other = os.path.join(ws, names[(fi + 1) % len(names)])
+                dest = os.path.realpath(other)
+                tmp = q + ".lnk~"
+                os.symlink(dest, tmp)
+                os.replace(tmp, q)
+                self.mut_count += 1
+            elif how == "replace" or (how == "retarget" and not os.path.islink(q)):
+                self.do_atomic_replace(q, content, clock)
+            elif how == "touch":
+                before, prev = self.triple(q), os.stat(q).st_mtime_ns
+                self.after_mutation(q, before, self.clock(q, clock, prev), content_changed=False)
+            else:
+                how = "write-through-" + ("symlink" if os.path.islink(q) else
+                                          "hardlink" if os.stat(q).st_nlink > 1 else "copy")
+                self.do_write_in_place(q, content, clock)
+            self.labels.add("checkout-mut:" + how)
+            self.cnt["queries"] += 2
+            res = imd5(index, state=state, name=name)          # the index the caller kept
+            judge("index.md5(checkout)", res)
+            new = ibuild(ws, self.fs)
+            update(new, kept)
+            self.cnt["carried"] += judge("index.update(checkout)", new)
+            kept = imd5(new, state=state, name=name)
+            judge("index.update+md5(checkout)", kept)
+        self.state.hits = []
+        self.nt.add("checkout-then-mutation")
+
     def plant_row(self, p, kind, bump, rname):
         """A row written by another release of the tool sharing the state directory, with a token
         that matches the file as it is: newer format version (placeholder value - must never be
@@ -1429,7 +1528,7 @@ class C13Machine(TraceMachine):
 
 
 def run(ctx):
-    n = ctx.n(quick=80, thorough=1000)
+    n = ctx.n(quick=70, thorough=1000)
     if ctx.scratch_kind == "disk":  # sqlite on ext4 syncs: same budget, fewer histories
         n = max(1, n // 3)
     run_trace_machine(ctx, C13Machine, n, 15)
